@@ -1696,6 +1696,11 @@ func (s *Server) loadServerInfo(v system.Info) {
 // loadSubscriptions restores subscriptions from the datastore.
 func (s *Server) loadSubscriptions(v []storage.Subscription) {
 	for _, sub := range v {
+		cl, ok := s.Clients.Get(sub.Client)
+		if !ok {
+			continue // no session was restored for this client: the subscription ended with it
+		}
+
 		sb := packets.Subscription{
 			Filter:            sub.Filter,
 			RetainHandling:    sub.RetainHandling,
@@ -1705,9 +1710,7 @@ func (s *Server) loadSubscriptions(v []storage.Subscription) {
 			Identifier:        sub.Identifier,
 		}
 		if s.Topics.Subscribe(sub.Client, sb) {
-			if cl, ok := s.Clients.Get(sub.Client); ok {
-				cl.State.Subscriptions.Add(sub.Filter, sb)
-			}
+			cl.State.Subscriptions.Add(sub.Filter, sb)
 		}
 	}
 }
